@@ -108,6 +108,10 @@ func c12RunCase[T any](c *Ctx, r *Rng, tc c12Case[T], scale int) {
 	if tc.weight > 1 {
 		nVals = max(2, nVals/tc.weight)
 		nMut = max(20, nMut/tc.weight)
+		if scale > 1 {
+			// thorough: the heavy types (shards: 3-30 kB per encoding) get half the values
+			nVals = max(2, nVals/2)
+		}
 	}
 	kinds := append(append([]string{}, c12ByteKinds...), c12TreeKinds...)
 	for vi := 0; vi < nVals; vi++ {
@@ -186,8 +190,8 @@ func c12RunCase[T any](c *Ctx, r *Rng, tc c12Case[T], scale int) {
 		}
 		if scale > 1 {
 			perLeaf, sample = 0, 24
-			if tc.weight > 2 {
-				perLeaf, sample = 3, 8
+			if tc.weight > 1 {
+				perLeaf, sample = 3, 10
 			}
 		}
 		for _, m := range c12ValueEdits(r, b1, tc.fam, perLeaf, sample) {
